@@ -1500,6 +1500,8 @@ class ActionPrebuilder(xtuml.tools.Walker):
         xtuml.relate(act_sgn, spr_rs, 660)
         xtuml.relate(act_sgn, spr_ps, 663)
         
+        self.accept(node.parameter_list, act_smt=act_smt, v_val=None)
+        
         return act_smt
     
 class BridgePrebuilder(ActionPrebuilder):
